@@ -294,6 +294,17 @@ def check_raise_catch(ctx):
                         handlers.append(h)
         missing = [r for r in raised if not any(
             r == c or exc_subclass(r, c) for c in caught)]
+        # a handler that raises again (under whatever condition) lets the
+        # lookup failure out after all
+        for h in handlers:
+            rr = [x for x in ast.walk(h) if isinstance(x, ast.Raise)]
+            if rr and not missing:
+                ctx.ob('C03.RAISE-CATCH', False, ctx.where(f.module, rr[0]),
+                       f.qual, 'handler of the lookup ' + U(n),
+                       'the handler for the lookup failure raises again '
+                       '(line %d): a lookup of an undefined rule can end in '
+                       '%s instead of a denial' % (rr[0].lineno,
+                                                   sorted(raised)))
         ctx.ob('C03.RAISE-CATCH', not missing, ctx.where(f.module, n), f.qual,
                'lookup ' + U(n),
                'the lookup failure %s is handled' % sorted(raised)
@@ -406,8 +417,62 @@ def check_deny_reasons(ctx):
            'of the current rule store' % effs[0].path)
 
 
+def check_set_defaults(ctx):
+    """opts.set_defaults() is how a service changes the library defaults of
+    the options - policy_default_rule=None ("no default rule") included.  The
+    overrides reach oslo.config as given: a filter on their values makes
+    some settings impossible to express."""
+    prog = ctx.prog
+    f = prog.functions.get(PKG + '.opts.set_defaults')
+    if f is None or f.node.args.kwarg is None:
+        return
+    kw = f.node.args.kwarg.arg
+    local = {}
+    for n in ast.walk(f.node):
+        if isinstance(n, ast.Assign) and len(n.targets) == 1 and isinstance(
+                n.targets[0], ast.Name):
+            local.setdefault(n.targets[0].id, []).append(n.value)
+    for c in ast.walk(f.node):
+        if not (isinstance(c, ast.Call) and U(c.func).endswith(
+                'set_defaults') and prog.callee_of(f, c) is None):
+            continue
+        for k in c.keywords:
+            if k.arg is not None:
+                continue
+            srcs = [k.value]
+            seen = set()
+            filt = None
+            while srcs:
+                x = srcs.pop()
+                if id(x) in seen:
+                    continue
+                seen.add(id(x))
+                if isinstance(x, ast.Name) and x.id in local:
+                    srcs.extend(local[x.id])
+                for y in ast.walk(x):
+                    if isinstance(y, (ast.DictComp, ast.GeneratorExp,
+                                      ast.ListComp)):
+                        for g in y.generators:
+                            if g.ifs:
+                                filt = g.ifs[0]
+            direct = isinstance(k.value, ast.Name) and k.value.id == kw \
+                and kw not in local
+            if filt is None and not direct:
+                continue
+            ctx.ob('C03.DEFAULT-SRC', filt is None, ctx.where(f.module, c),
+                   f.qual, 'overrides **%s' % U(k.value)[:40],
+                   'the caller\'s overrides are handed to oslo.config as '
+                   'given' if filt is None else
+                   'overrides are filtered (`if %s`) before they reach '
+                   'oslo.config: set_defaults(conf, policy_default_rule='
+                   'None) - "no default rule" - is silently ignored and '
+                   'unknown names go on falling back to the rule `default`'
+                   % U(filt)[:40])
+
+
 def check_default_src(ctx):
     prog = ctx.prog
+    check_set_defaults(ctx)
     init = prog.func(POLICY + '.Enforcer.__init__')
     W = lambda n: ctx.where(init.module, n)
     from ..dte import inline_helpers
